@@ -168,6 +168,16 @@ Definition h_cancel_incomplete : list (input * list tev) := [
   (IApi (ANop), []);
   (IProc [] [1], [TM 5 1 (mk_ans 0 false 1 true true true); TMR (0)%Z false; TG; TE 5 (0)%Z; TR (0)%Z; TK; TCL 1; TKE])].
 
+(* the same requests against the code with the fix: the PTR query, ended by the connection error
+   while it waits in ares_cancel's list, completes as cancelled and nothing new is started *)
+Definition h_cancel_complete : list (input * list tev) := [
+  (IApi (ASend 2), [TI 1; TQ (4)%Z 0 0 2; TD (0)%Z; TO (0)%Z; TW 1 0 false; TF 0 (0)%Z]);
+  (IApi (AGhba 1 [true; true]), [TI 3; TQ (4)%Z 0 0 2; TD (0)%Z; TW 3 0 false; TF 0 (0)%Z]);
+  (IOnCb 2 (ASend 3), []);
+  (IApi (ACancel), [TI 4; TQ (4)%Z 0 0 2; TD (0)%Z; TW 4 0 false; TF 0 (11)%Z; TS; TX 0 (11)%Z; TE 3 (11)%Z; TCL 0; TE 4 (11)%Z; TK; TKE]);
+  (IApi (ANop), []);
+  (IProc [] [1], [TK; TKE])].
+
 Definition tr_cancel_incomplete : list event :=
   [EvReq 2; EvReq 1; EvCancelBegin; EvCb 2 24%Z; EvReq 3; EvCb 3 11%Z; EvCancelEnd; EvCb 1 0%Z;
    EvDestroyBegin; EvDestroyEnd; EvEnd].
@@ -181,8 +191,7 @@ Proof.
   specialize (H [EvReq 2; EvReq 1] [EvCb 2 24%Z; EvReq 3; EvCb 3 11%Z]
                 [EvCb 1 0%Z; EvDestroyBegin; EvDestroyEnd; EvEnd] eq_refl).
   assert (A : ~ In EvCancelBegin [EvCb 2 24%Z; EvReq 3; EvCb 3 11%Z]) by (simpl; intuition discriminate).
-  assert (B : ~ In EvSetServers [EvCb 2 24%Z; EvReq 3; EvCb 3 11%Z]) by (simpl; intuition discriminate).
-  specialize (H A B 1 (or_intror (or_introl eq_refl))). vm_compute in H. inversion H.
+  specialize (H A 1 (or_intror (or_introl eq_refl))). vm_compute in H. inversion H.
 Qed.
 
 Theorem cancel_incomplete :
